@@ -171,13 +171,17 @@ func (w *World) init(over map[string]int) {
 	must(os.MkdirAll(filepath.Join(w.ConfigDir, "Users"), 0755))
 	must(os.MkdirAll(w.FileRoot, 0755))
 	pol := simrt.Policy(w.cfg("policy"))
-	w.Sim = simrt.New(simrt.Config{
+	scfg := simrt.Config{
 		Seed:      c.Seed,
 		Policy:    pol,
 		MaxSteps:  w.cfg("maxsteps"),
 		Grace:     time.Duration(w.cfg("grace_s")) * time.Second,
 		TraceFull: w.cfg("trace") != 0,
-	})
+	}
+	if w.cfg("fifo_senders") != 0 {
+		scfg.FIFOSubstr = ".outbox/go"
+	}
+	w.Sim = simrt.New(scfg)
 	simrand.Seed(c.Seed ^ 0x7a11)
 	w.Net = simnet.NewNet(w.Sim, c.Seed^0x4e37)
 	w.Net.C2S = simnet.Seg(w.cfg("seg_c2s"))
